@@ -38,7 +38,7 @@ func GenPlan(r *model.Rand) simrt.Plan {
 }
 
 var mapPolicies = []string{"sorted", "reverse", "rotate", "shuffle", "shuffle"}
-var schedPolicies = []string{"run-to-block", "random", "round-robin", "prefer-low", "prefer-high", "mostly-low", "mostly-high", "random"}
+var schedPolicies = []string{"run-to-block", "random", "round-robin", "prefer-low", "prefer-high", "mostly-low", "mostly-high", "random", "rtb-high", "rtb-random", "rtb-high"}
 
 // Workload knows the tree's own dictionaries (read through the simulated
 // binary in Prepare) and draws commands with their inputs.
@@ -161,6 +161,34 @@ func (w *Workload) GenText(r *model.Rand, big bool) Base {
 		}
 	}
 	return Base{Argv: argv, Input: []byte(s.Text), InputArg: true, Class: "text"}
+}
+
+// GenTextN draws a text command with about n items.
+func (w *Workload) GenTextN(r *model.Rand, n int) Base {
+	mode := model.Pick(r, []string{"syllable", "degree"})
+	o := &model.TextOpts{Mode: mode, MaxItems: 1, Trivia: r.Chance(1, 2), Unicode: r.Chance(1, 4), Meta: true, Musical: true, KnownSyms: w.ChordSyms}
+	var items []model.ItemT
+	for len(items) < n {
+		items = append(items, model.GenItems(r, o)...)
+	}
+	// plain accidentals only, so that most chords convert in most keys
+	for i := range items {
+		if mode == "syllable" && r.Chance(2, 3) {
+			items[i].Degree.HasAcc, items[i].Degree.Acc = false, ""
+			if items[i].Bass != nil {
+				items[i].Bass.HasAcc, items[i].Bass.Acc = false, ""
+			}
+		}
+	}
+	text := model.Render(r, o, items)
+	argv := []string{"text", "conv", mode}
+	if mode == "syllable" && r.Chance(1, 2) {
+		argv = append(argv, "--key", model.Pick(r, []string{"C", "G", "F", "D", "Am", "Em"}))
+	}
+	if r.Chance(1, 5) {
+		argv = []string{"text", "parse"}
+	}
+	return Base{Argv: argv, Input: []byte(text), InputArg: true, Class: "text"}
 }
 
 // GenDocCmd draws a `write ...` command with an instances document.
